@@ -21,11 +21,13 @@ from ..universe import Universe  # noqa: E402
 PROP = "C09"
 LEVEL = "exploration"
 RULE = ("case = one generated flatten-ready netlist (named instances/cables, depth up to 5, feed-through and wire-only "
-        "cells, inner nets tied to several ports, ports unconnected inside or outside, buses) -> uniquify -> flatten; "
+        "cells, inner nets tied to several ports, ports unconnected inside or outside, buses; every third with EDIF identifiers "
+        "on its elements; every sixth case a bundled EDIF example as read by the EDIF reader) -> uniquify -> flatten; "
         "distinct = shape+partition hash; non-trivial = hierarchy depth >= 2 and at least one endpoint class that "
         "crosses two or more levels (contains endpoints of different path lengths or top port bits and depth>=2 leaves)")
 ASSUMPTIONS = ["instance and cable names contain no '/'", "netlist uniquified first (quantifier of C09)"]
-REQUIRED = {"flattened": 100, "endpoint_classes_compared": 1000, "leaf_occurrences_compared": 500}
+REQUIRED = {"flattened": 100, "endpoint_classes_compared": 1000, "leaf_occurrences_compared": 500,
+            "netlists_with_identifiers": 30, "reader_produced_netlists": 10}
 PROBES = {}
 IGNORED_KEYS = (".NAME", "EDIF.identifier", ".NS")
 
@@ -75,9 +77,40 @@ def read_flat(n):
     return leaves, non_leaf, classes, len(top.children)
 
 
+def bundled_edf(max_size):
+    import glob
+    import os
+    fs = sorted(glob.glob(os.path.join(common.REPO, "example_netlists", "EDIF_netlists", "*.edf.zip")))
+    return [f for f in fs if 0 < os.path.getsize(f) <= max_size]
+
+
 def run_case(ctx, i, rng):
-    n = gen_ir.generate(rng, profile="flatten", share=0.6, ndefs=rng.randint(3, 9), max_children=rng.choice([2, 3, 4]),
-                        outside=(i % 4 == 0))
+    if i % 6 == 5:
+        # a reader-produced netlist (EDIF policy, every element carries an EDIF.identifier): the everyday input of flatten
+        import os
+        fs = bundled_edf(6000 if ctx.tier == "quick" else 40000)
+        f = fs[rng.randrange(len(fs))]
+        try:
+            n = sdn.parse(f)
+        except Exception:  # noqa: BLE001 - the emptied example archives
+            ctx.count("bundled_not_parsed")
+            return
+        if n.top_instance is None or any(c.name is None for l in n.libraries for d in l.definitions for c in list(d.children) + list(d.cables)):
+            ctx.count("bundled_out_of_domain")
+            return
+        ctx.count("reader_produced_netlists")
+        ctx.count("bundled:" + os.path.basename(f))
+    else:
+        n = gen_ir.generate(rng, profile="flatten", share=0.6, ndefs=rng.randint(3, 9), max_children=rng.choice([2, 3, 4]),
+                            outside=(i % 4 == 0))
+        if i % 3 == 1:
+            # like a netlist that was read from EDIF or exported once: elements carry EDIF identifiers
+            for l in n.libraries:
+                for d_ in l.definitions:
+                    for x_ in [d_] + list(d_.children) + list(d_.cables) + list(d_.ports):
+                        if x_.name and rng.random() < 0.8:
+                            x_["EDIF.identifier"] = x_.name.replace("[", "_").replace("]", "_")
+            ctx.count("netlists_with_identifiers")
     uniquify(n)
     e0 = Elab(n, max_occ=2500)
     if e0.truncated:
